@@ -1,0 +1,122 @@
+package ast
+
+import "strings"
+
+// SQL returns the SQL representation of an ALTER statement.
+func (a *AlterStatement) SQL() string {
+	if a == nil {
+		return ""
+	}
+	sb := getBuilder()
+	defer putBuilder(sb)
+	sb.WriteString("ALTER ")
+	switch a.Type {
+	case AlterTypeTable:
+		sb.WriteString("TABLE ")
+	case AlterTypeRole:
+		sb.WriteString("ROLE ")
+	case AlterTypePolicy:
+		sb.WriteString("POLICY ")
+	case AlterTypeConnector:
+		sb.WriteString("CONNECTOR ")
+	}
+	sb.WriteString(a.Name)
+	if op, ok := a.Operation.(*AlterTableOperation); ok && op != nil {
+		sb.WriteString(" ")
+		sb.WriteString(alterTableOperationSQL(op))
+	}
+	return sb.String()
+}
+
+// alterTableOperationSQL renders the operations the parser builds for ALTER TABLE.
+func alterTableOperationSQL(op *AlterTableOperation) string {
+	cascade := ""
+	if op.CascadeDrops {
+		cascade = " CASCADE"
+	}
+	switch op.Type {
+	case AddColumn:
+		if op.ColumnDef != nil {
+			return "ADD COLUMN " + columnDefSQL(op.ColumnDef)
+		}
+	case AddConstraint:
+		if op.Constraint != nil {
+			// a named constraint already starts with CONSTRAINT <name>
+			if op.Constraint.Name != "" {
+				return "ADD " + tableConstraintSQL(op.Constraint)
+			}
+			return "ADD CONSTRAINT " + tableConstraintSQL(op.Constraint)
+		}
+	case DropColumn:
+		if op.ColumnName != nil {
+			return "DROP COLUMN " + op.ColumnName.Name + cascade
+		}
+	case DropConstraint:
+		if op.ConstraintName != nil {
+			return "DROP CONSTRAINT " + op.ConstraintName.Name + cascade
+		}
+	case RenameTable:
+		return "RENAME TO " + op.NewTableName.Name
+	case RenameColumn:
+		if op.ColumnName != nil && op.NewColumnName != nil {
+			return "RENAME COLUMN " + op.ColumnName.Name + " TO " + op.NewColumnName.Name
+		}
+	case AlterColumn:
+		if op.ColumnName != nil && op.ColumnDef != nil {
+			return "ALTER COLUMN " + op.ColumnName.Name + " " + columnDefSQL(op.ColumnDef)
+		}
+	}
+	return ""
+}
+
+// SQL returns the SQL representation of a SHOW statement.
+func (s *ShowStatement) SQL() string {
+	if s == nil {
+		return ""
+	}
+	out := "SHOW " + s.ShowType
+	if s.ObjectName != "" {
+		if strings.HasPrefix(s.ShowType, "CREATE") {
+			out += " " + s.ObjectName
+		} else {
+			out += " FROM " + s.ObjectName
+		}
+	}
+	if s.From != "" {
+		out += " FROM " + s.From
+	}
+	return out
+}
+
+// SQL returns the SQL representation of a DESCRIBE statement.
+func (d *DescribeStatement) SQL() string {
+	if d == nil {
+		return ""
+	}
+	return "DESCRIBE " + d.TableName
+}
+
+// SQL returns the SQL representation of a REPLACE statement.
+func (r *ReplaceStatement) SQL() string {
+	if r == nil {
+		return ""
+	}
+	sb := getBuilder()
+	defer putBuilder(sb)
+	sb.WriteString("REPLACE INTO ")
+	sb.WriteString(r.TableName)
+	if len(r.Columns) > 0 {
+		sb.WriteString(" (")
+		sb.WriteString(exprListSQL(r.Columns))
+		sb.WriteString(")")
+	}
+	if len(r.Values) > 0 {
+		sb.WriteString(" VALUES ")
+		rows := make([]string, len(r.Values))
+		for i, row := range r.Values {
+			rows[i] = "(" + exprListSQL(row) + ")"
+		}
+		sb.WriteString(strings.Join(rows, ", "))
+	}
+	return sb.String()
+}
